@@ -465,6 +465,62 @@ pub fn run_light(ctx: &mut Ctx, setup: &mut Setup, fp: &FamParams, extra_k: u32,
     }
 }
 
+
+/// (H1) tamper sweep inside the light verifier circuit: the `i`-th advice value handed to the
+/// backend is replaced (`+1`); with the honest instance the circuit must become unsatisfied,
+/// i.e. every advice cell of the verifier circuit is constrained. Returns (tried, rejected).
+pub fn tamper_light(ctx: &mut Ctx, setup: &mut Setup, fp: &FamParams, seed: u64, n: usize) {
+    use midnight_proofs::circuit::verif_hooks::{counter, set_plan, take_plan, TamperPlan};
+    type H = LightPoseidonFS<F>;
+    let mut rng = ChaCha8Rng::seed_from_u64(seed ^ 0x7a3b);
+    let inner = match make_inner::<H>(setup, fp, 0, seed) {
+        Ok(i) => i,
+        Err(_) => return,
+    };
+    let (g, _) = match off_circuit::<H>(&inner, &inner.insts, &inner.commitments, &inner.proof) {
+        Ok(x) => x,
+        Err(_) => return,
+    };
+    let acc = acc_of(&inner, &g);
+    let pi = light_instance(&inner, &inner.insts, &inner.commitments, &acc);
+    let circuit = light_circuit(&inner, &inner.insts, &inner.commitments, &inner.proof);
+    let outer_k = match find_k(10, 17, &circuit, &pi) {
+        Some(k) => k,
+        None => return,
+    };
+    // number of advice assignments of one synthesis
+    set_plan::<F>(TamperPlan::new(vec![]));
+    let _ = mock(outer_k, &circuit, pi.clone());
+    let total = counter::<F>();
+    let _ = take_plan::<F>();
+    ctx.set_extra("light_verifier_advice_assignments", json!(total));
+    if total == 0 {
+        return;
+    }
+    for _ in 0..n {
+        let idx = rng.gen_range(0..total);
+        set_plan::<F>(TamperPlan::new(vec![(idx, Box::new(|v: F| v + F::ONE))]));
+        let r = mock(outer_k, &circuit, pi.clone());
+        let hits = take_plan::<F>().map(|p| p.hits.len()).unwrap_or(0);
+        if hits != 1 {
+            continue;
+        }
+        ctx.count("light:tamper");
+        match r {
+            Ok((false, _)) => ctx.count("light:tamper:rejected"),
+            Ok((true, _)) => {
+                ctx.count("light:tamper:accepted");
+                ctx.oracle_fail(
+                    "light:tamper-accepted",
+                    "verifier circuit (light back-end) satisfied although one advice value was altered: unconstrained cell",
+                    json!({"params": format!("{fp:?}"), "seed": seed, "advice_index": idx, "total": total}),
+                );
+            }
+            Err(_) => ctx.count("light:tamper:synthesis-error"),
+        }
+    }
+}
+
 // ---------------------------------------------------------------------------------------------
 // The verifier circuit over the foreign-curve back-end (layout of the repository's
 // `test_verify_proof`): accumulator collapsed in-circuit, instance = (vk identity, accumulator).
